@@ -23,7 +23,7 @@ ASSUMPTIONS = ['lines are \\n-separated without \\r', 'the liberal recogniser (C
 REQUIRED = ['backends/libwayland_debug_output/parse.py:Parser.parse_all', 'backends/libwayland_debug_output/parse.py:Parser.cleanup',
             'core/output/output.py:Output.unprocessed', 'core/output/output.py:Output.show']
 
-CHATTER = ['hello world', '', ' ', '\t \t', 'libEGL warning: DRI2: failed to authenticate', '[[[]]](())', '(gedit:1234): Gtk-WARNING **: 12:00:00.123: x',
+CHATTER = ['page one\x0cpage two', 'a\x0bb', 'fs\x1cgs\x1drs\x1eus\x1f.', 'nel\x85here', 'ls\u2028ps\u2029end', 'y' * 70000, 'hello world', '', ' ', '\t \t', 'libEGL warning: DRI2: failed to authenticate', '[[[]]](())', '(gedit:1234): Gtk-WARNING **: 12:00:00.123: x',
            'x' * 10000, 'żółć → ↲ 日本語', '   indented text   ', '[12:00:00.123] not wayland', 'wl_surface@3.commit()', ' -> wl_display@1.sync(new id wl_callback@3)',
            '[1234.567]', '[1234.567]  -> ', '───┤ 1.0000s ├───', 'New client connection Z', '       |  already prefixed', 'Closed client connection A',
            '0.0000 A: wl_display@1a.sync()', '\x1b[31mred\x1b[0m', 'a\x00b', '\x0b\x0c', '%s %d {} {0}']
